@@ -275,3 +275,38 @@ fn hot_reloading_thread(
 
     log::info!("Stopping hot-reloading");
 }
+
+/// Hooks for external verification harnesses (`--cfg assets_manager_verif`).
+#[cfg(assets_manager_verif)]
+#[doc(hidden)]
+#[allow(missing_docs, missing_debug_implementations)]
+pub mod verif {
+    use super::*;
+
+    pub use super::watcher::verif_hooks::{event_handler, id_of_path};
+
+    /// The receiving end of a channel created with `event_channel`.
+    pub struct VerifReceiver(Receiver<Events>);
+
+    impl VerifReceiver {
+        /// Returns all events that were sent so far.
+        pub fn recv_all(&self) -> Vec<OwnedDirEntry> {
+            let mut all = Vec::new();
+            while let Ok(events) = self.0.try_recv() {
+                events.for_each(|e| all.push(e));
+            }
+            all
+        }
+    }
+
+    /// Creates an `EventSender` whose events can be read back.
+    pub fn event_channel() -> (EventSender, VerifReceiver) {
+        let (tx, rx) = channel::unbounded();
+        (EventSender(tx), VerifReceiver(rx))
+    }
+
+    /// See `records::recording_token`.
+    pub fn recording_token() -> usize {
+        records::recording_token()
+    }
+}
